@@ -123,7 +123,7 @@ def gen_pack(rng, world, flavour=None, allow_iterative=True):
     for u in unary_pool:
         r = rng.random()
         if r < 0.45:
-            u = dict(u, mask=_mask(rng, 0.15), lazy=lazy(), two_way=rng.random() < 0.7)
+            u = dict(u, mask=_mask(rng, 0.15), lazy=lazy(), two_way=rng.random() < 0.7, reversible=rng.random() < 0.75)
             if u["t"] == "TrackLetter":
                 track_used = True
             if u["t"] != "TrackLetter" and rng.random() < 0.3:
@@ -169,6 +169,7 @@ def gen_pack(rng, world, flavour=None, allow_iterative=True):
                     "dup": rng.random() < 0.3,
                     "mask": exp_mask,
                     "foreign_first": rng.random() < 0.5,
+                    "with_remove_front": rng.random() < 0.4,
                 }
             ]
         ]
@@ -250,6 +251,11 @@ def gen_search(rng, tier, ruledb=None, flavour=None):
             ops.append(["get", {"smallest": rng.random() < 0.3, "min_time": rng.choice([0, 0.5])}])
         else:
             ops.append([k])
+    if not db.startswith("forest"):
+        # the default / forget DBs turn a stored two-way rule around with to_reverse_rule, which asserts
+        # is_reversible: "two-way but irreversible" is only meaningful for the forest DB
+        for sect in ("inferral", "initial"):
+            pack[sect] = [dict(x, reversible=True) if x.get("two_way") and x.get("reversible") is False else x for x in pack[sect]]
     has_track = any(x["t"] == "TrackLetter" for x in pack["inferral"] + pack["initial"])
     return {
         "world": world,
@@ -285,6 +291,7 @@ class Sim:
         self.rng = SimRandom(R["rng"]["policy"], R["rng"]["seed"])
         self.packets = 0
         self.cur_label = None
+        self.key_stack = []
         # universes are capped by work packets; runs that use algorithms which are super-linear in
         # the universe by design (forest minimisation, exhaustive 'smallest' search over packs that
         # give a class several rules) get a smaller cap, so that the watchdog only ever sees real hangs
@@ -437,6 +444,8 @@ class Sim:
         self.shadow_rev[label] = k
 
     def on_add_pre(self, db, start, ends, rule):
+        if isinstance(db, RuleDBForest):
+            self.key_stack.append([len(db.table_method._rules), 0])  # pylint: disable=protected-access
         self.adds += 1
         self.clock.event()
         st = rule.strategy
@@ -492,7 +501,27 @@ class Sim:
         if isinstance(st, WW.Expand) and self.cur_label is not None and start != self.cur_label:
             self.ctx.probe("foreign_parent_rule")
 
+    def _forest_keys(self, db, rule, own):
+        """Forest DB: one key for the rule, plus one per child iff reverse rules are on and the
+        strategy declares itself reversible - never a reverse key for an irreversible strategy."""
+        st = rule.strategy
+        rev = db.reverse and not isinstance(rule, VerificationRule) and st.is_reversible(rule.comb_class)
+        want = 1 + (len(rule.children) if rev else 0)
+        if own != want:
+            raise Violation(
+                "C11:forest-key-count",
+                f"add of {rule.comb_class} -> {tuple(rule.children)} by {st!r} (reversible={bool(rev)}, reverse rules {'on' if db.reverse else 'off'}) "
+                f"inserted {own} keys into the table, expected {want}",
+            )
+
     def on_add_post(self, db, start, ends, rule):
+        if isinstance(db, RuleDBForest) and self.key_stack:
+            now = len(db.table_method._rules)  # pylint: disable=protected-access
+            start_len, nested = self.key_stack.pop()
+            if self.key_stack:
+                self.key_stack[-1][1] += now - start_len
+            if self.focus in ("C11", "C04", "ALL"):
+                self._forest_keys(db, rule, now - start_len - nested)
         if self.mirrors is not None:
             self.mirrors.feed(start, ends, rule)
         if self.focus not in ("C04", "ALL"):
